@@ -73,7 +73,8 @@ Definition decompose_for_tropical (n : nat) (m : list T) (stability : option C)
   let det_q := fold_left (fun acc i => s_mul S acc (mget n q i i)) (seq 0 n) (s_one S) in
   let inv_diag := map (fun i => s_inv S (mget n q i i)) (seq 0 n) in
   let determinant := s_mul S det_q det_q in
-  if s_eqb S det_q (s_zero S) then Ok (inl ZeroDet) else
+  (* det_q == 0 || determinant == 0  (the square can underflow; fix: commit in /repo) *)
+  if s_eqb S det_q (s_zero S) || s_eqb S determinant (s_zero S) then Ok (inl ZeroDet) else
   let idg i := nth i inv_diag (s_zero S) in
   let nm := tabulate n (fun r c => if Nat.ltb c r then s_mul S (idg r) (mget n q r c) else s_zero S) in
   let powers := nm :: n_powers n nm (n - 2) nm in
@@ -91,7 +92,8 @@ Definition decompose_for_tropical (n : nat) (m : list T) (stability : option C)
   | Some tol =>
       let approx := mmul n inverse m in
       let err := l21_norm n (msub n approx (midentity n)) in
-      if s_ltb S (s_of_c S tol) err (* error > tolerance *) then Ok (inl Unstable) else Ok (inr result)
+      (* !(error <= tolerance): a NaN error is rejected (fix: commit in /repo) *)
+      if negb (s_leb S err (s_of_c S tol)) then Ok (inl Unstable) else Ok (inr result)
   end.
 
 End Matrix.
